@@ -118,6 +118,9 @@ pub fn node_config(node_id: u32, members: &[(u32, bool)], root: &std::path::Path
     r.read_consistency.allow_client_override = k.allow_override;
     r.backpressure.max_pending_writes = k.max_pending_writes;
     r.learner_catchup_threshold = k.catchup_threshold;
+    if k.stale_learner_ms > 0 {
+        r.membership.promotion.stale_learner_threshold = Duration::from_millis(k.stale_learner_ms);
+    }
     r.watch.event_queue_size = k.watch_queue;
     r.watch.watcher_buffer_size = k.watch_buf;
     r.watch.heartbeat_interval_ms = k.watch_heartbeat_ms;
@@ -214,6 +217,18 @@ pub fn install_hook(oracle: OracleRef, registry: RegistryRef, ledger: LedgerRef)
                     }
                     None => {
                         o.max_committed = o.max_committed.max(e.index);
+                        if let Some(d_engine_proto::common::entry_payload::Payload::Config(mc)) = e.payload.as_ref().and_then(|p| p.payload.as_ref()) {
+                            use d_engine_proto::common::membership_change::Change;
+                            let name = match &mc.change {
+                                Some(Change::AddNode(_)) => "config_committed_add_node",
+                                Some(Change::RemoveNode(_)) => "config_committed_remove_node",
+                                Some(Change::Promote(_)) => "config_committed_promote",
+                                Some(Change::BatchPromote(_)) => "config_committed_batch_promote",
+                                Some(Change::BatchRemove(_)) => "config_committed_batch_remove",
+                                None => "config_committed_empty",
+                            };
+                            o.probe(name);
+                        }
                         led.by_index.insert(
                             e.index,
                             LedgerEntry { term: e.term, hash: hsh, entry: e.clone(), first_reporter: v.node_id, vtime_ms: crate::oracle::vnow() },
